@@ -3132,6 +3132,10 @@ define_enum_type(InterrogateType &itype, CPPEnumType *cpptype) {
 
   int next_value = 0;
 
+  // We may get here twice for the same type, when defining the enclosing
+  // class leads back to this enum; make sure the values are listed only once.
+  itype._enum_values.clear();
+
   CPPEnumType::Elements::const_iterator ei;
   for (ei = cpptype->_elements.begin();
        ei != cpptype->_elements.end();
